@@ -1,0 +1,13 @@
+//go:build verif
+
+package p2p
+
+// Exported copies of the unexported wire limits, for the verification harness in /verif
+// (add-only, no behaviour change; only compiled with -tags verif).
+const (
+	VerifMaxMessageSize   = int(maxMessageSize)   // largest assembled message the receiver accepts
+	VerifMaxPacketSize    = int(maxPacketSize)    // largest length prefix the receiver accepts
+	VerifMaxDataChunkSize = int(maxDataChunkSize) // message bytes carried by one packet of Send()
+	VerifHeartbeatTimeout = heartbeatTimeout      // silence after which a peer is dropped
+	VerifHeartbeatEvery   = heartbeatInterval     // ping period
+)
